@@ -189,8 +189,9 @@ def rules(ctx, db):
                             ok = True
                 ctx.ob("R2", "poll-cancel-at-most-one-entry", ok,
                        "a multi-descriptor op produces at most one cancelled entry (`pushed` guard set after the send)", f)
-            co = calls(f, r"poll::Driver::cancel_one$")
-            ctx.ob("R2", "poll-cancel-per-fd", bool(co), "every descriptor the op waits on is released", f)
+            co = Summaries(db, r"poll::Driver::remove_one$", depth=2).event_blocks(f, "may")
+            ctx.ob("R2", "poll-cancel-per-fd", bool(co), "every descriptor the op waits on is released (remove_one, directly or "
+                   "through cancel_one)", f)
         nc = db.methods(self_adt=r"^compio_driver::Entry$", name="new_cancelled")
         ie = [f for f in db.fns.values() if f.name == "compio_driver::ErrorExt::is_cancelled::{closure#0}" or f.id.startswith("compio_driver::ErrorExt::is_cancelled")]
         v1 = set()
